@@ -121,6 +121,12 @@ def make_cases(ctx):
                     mn = MON[m - 1] if rng.random() < 0.5 else MON[m - 1][:3]
                     s = rng.choice(["%d %s" % (d, mn), "%s %d" % (mn, d)])
                     add("daymonth", pref, base, s, m=m, d=d)
+                    # ... with a clock time: on the reference's own day the time of day decides the side (earlier, equal, later
+                    # than the reference's time), on other days it is kept as written
+                    dd = bd if (rng.random() < 0.5 and m == bm) else d
+                    if dd <= calendar.monthrange(2000, m)[1]:
+                        h_, mi_ = rng.choice([(base[3], base[4]), (23, 59), (0, 0), (min(23, base[3] + 1), base[4]), (max(0, base[3] - 1), base[4]), (rng.randint(0, 23), rng.randint(0, 59))])
+                        add("daymonthtime", pref, base, rng.choice(["%d %s %02d:%02d", "%d %s, %d:%02d"]) % (dd, mn, h_, mi_), m=m, d=dd, t=(h_, mi_, 0, 0))
                     d2 = rng.choice([1, 13, 28, [31, 28, 31, 30, 31, 30, 31, 31, 30, 31, 30, 31][m - 1]])
                     yy = rng.choice([0, 21, 30, 67, 68, 69, 70, 99, by % 100, (by + 1) % 100, (by - 1) % 100, rng.randint(0, 99)])
                     s = rng.choice(["%d %s %02d" % (d2, mn, yy), "%s %d, %02d" % (mn, d2, yy), "%02d/%02d/%02d" % (m, d2, yy)])
@@ -240,7 +246,7 @@ def run(ctx):
         "distinct_nontrivial": len({(c["s"], repr(sorted(c["settings"].items()))) for c, r in zip(cases, results) if r["out"]}),
         "rule": "case = (form, string, reference datetime, preference, zone); non-trivial = distinct call returning a datetime",
         "exhaustive": False,
-        "by_form": {k: sum(1 for c in cases if c["form"] == k) for k in ("weekday", "time", "month", "daymonth", "yy")},
+        "by_form": {k: sum(1 for c in cases if c["form"] == k) for k in ("weekday", "time", "month", "daymonth", "daymonthtime", "yy")},
         "samples": [dict(describe(c), observed=r["out"]) for c, r in list(zip(cases, results))[:: max(1, len(cases) // 6)]][:6],
     }
     return core.finish(ctx, LEVEL, cov, findings_desc=desc, assumptions=[
